@@ -25,9 +25,28 @@ def run(repo, rep, tier):
     g = cfgmod.build(td)
     # ---- R1 special floats are sanitised
     floats = [c for c in body_walk(td) if isinstance(c, ast.Call) and isinstance(c.func, ast.Name) and c.func.id == "float"]
+    scope = td
+    if not floats:
+        # the coercion may live in a module-level helper called from here: follow it (one level)
+        mod = repo.tree("_csv2numbers.py")
+        helpers = {n.name: n for n in mod.body if isinstance(n, ast.FunctionDef)}
+        for c in body_walk(td):
+            if isinstance(c, ast.Call) and isinstance(c.func, ast.Name) and c.func.id in helpers:
+                h = helpers[c.func.id]
+                fl_h = [x for x in body_walk(h) if isinstance(x, ast.Call) and isinstance(x.func, ast.Name) and x.func.id == "float"]
+                if fl_h:
+                    floats, scope = fl_h, h
+                    # the caller must store the helper's result only when it is a number
+                    st_c = next((p for p in _anc(c) if isinstance(p, ast.stmt)), None)
+                    var_c = st_c.targets[0].id if isinstance(st_c, ast.Assign) and isinstance(st_c.targets[0], ast.Name) else None
+                    stores = [s2 for s2 in body_walk(td) if isinstance(s2, ast.Assign) and isinstance(s2.targets[0], ast.Subscript) and isinstance(s2.value, ast.Name) and s2.value.id == var_c]
+                    okc = bool(stores) and all(any(isinstance(p, ast.If) and U(p.test).replace(" ", "") == f"{var_c}isnotNone" and any(s2 is y for x in p.body for y in ast.walk(x)) for p in _anc(s2)) for s2 in stores)
+                    rep.ob("C20.R1", st_c or td, f"the result of {h.name}() is stored only when it is a number", okc, "", key="C20.R1@transform:helper-result")
+                    break
     if not floats:
         raise AnalysisError("_transform_data: float coercion not found")
     n = 0
+    td_outer, td = td, scope
     for fl in floats:
         st = next((p for p in _anc(fl) if isinstance(p, ast.stmt)), None)
         # where does the float value go?
@@ -41,6 +60,8 @@ def run(repo, rep, tier):
                 for s2 in body_walk(td):
                     if isinstance(s2, ast.Assign) and isinstance(s2.targets[0], ast.Subscript) and isinstance(s2.value, ast.Name) and s2.value.id == var:
                         sinks.append((s2, var))
+                    if td is not td_outer and isinstance(s2, ast.Return) and isinstance(s2.value, ast.Name) and s2.value.id == var:
+                        sinks.append((s2, var))  # the helper hands the float back to the caller
         for sink, var in sinks:
             n += 1
             guarded = False
@@ -59,7 +80,8 @@ def run(repo, rep, tier):
     sup = [w for w in body_walk(td) if isinstance(w, ast.With) and any("suppress(ValueError)" in U(i.context_expr) for i in w.items)]
     ok = bool(sup) and all(any(fl is x for x in ast.walk(sup[0])) for fl in floats)
     rep.ob("C20.R1", sup[0] if sup else td, "text that is not a number stays text (ValueError suppressed around the coercion only)", ok, "", key="C20.R1@suppress")
-    rep.ob("C20.R1", floats[0], "thousands commas are removed before coercion", "v.replace(',', '')" in U(floats[0]), "", key="C20.R1@commas")
+    rep.ob("C20.R1", floats[0], "thousands commas are removed before coercion", ".replace(',', '')" in U(floats[0]), "", key="C20.R1@commas")
+    td = td_outer
 
     # ---- R2 error reporting shape
     main = repo.func("_csv2numbers.py", "main")
